@@ -98,7 +98,7 @@ func installWorld(op Op) (map[string]route, string) {
 				effective = resp[:k]
 			}
 			mfault = ""
-		} else if fault == "stall" || strings.HasPrefix(fault, "trickle:") {
+		} else if fault == "stall" || strings.HasPrefix(fault, "trickle:") || strings.HasPrefix(fault, "slowtail:") {
 			/* nothing complete arrives before the deadline */
 			effective, mfault = "", ""
 		}
@@ -500,7 +500,7 @@ func genC05(r *rand.Rand, n int, emit func(Op)) {
 		faultAt := r.Intn(hops + 1) // which hop carries the fault (0 = the document)
 		routes := []any{}
 		mkFault := func(text string) string {
-			switch weighted(r, 10, 2, 1, 1) {
+			switch weighted(r, 10, 2, 1, 3, 1) {
 			case 0:
 				k := r.Intn(len(text) + 1)
 				if r.Intn(3) == 0 {
@@ -515,6 +515,23 @@ func genC05(r *rand.Rand, n int, emit func(Op)) {
 				return "stall"
 			case 2:
 				return "trickle:100"
+			case 3:
+				/* headers (and some of the body) arrive at once, the rest drips in with gaps
+				   well below the timeout; what is missing takes at least three timeouts */
+				end := strings.Index(text, "\r\n\r\n") + 4
+				/* a redirect is followed as soon as its Location line is complete */
+				limit := strings.Index(text, "Location: ") + len("Location: ") + 3
+				if strings.HasPrefix(text, "HTTP/1.0 200") {
+					limit = end + (len(text)-end)/3
+				}
+				k := limit
+				if r.Intn(3) == 0 {
+					k = r.Intn(limit + 1)
+				}
+				if len(text)-k < 14 {
+					return "stall"
+				}
+				return fmt.Sprintf("slowtail:%d:250", k)
 			}
 			return ""
 		}
